@@ -66,12 +66,18 @@ type SBlock struct {
 	Par  int
 }
 
-func (b *SBlock) model(ok bool) string {
-	o := 0
+func (b *SBlock) model(ok bool) string { return b.model2(ok, true) }
+
+// model2: ok = passes SanityCheckNewHeight, st = Store accepts its state update
+func (b *SBlock) model2(ok, st bool) string {
+	o, t := 0, 0
 	if ok {
 		o = 1
 	}
-	return fmt.Sprintf("%d:%d:%d:%d", b.Num, b.ID, b.Par, o)
+	if st {
+		t = 1
+	}
+	return fmt.Sprintf("%d:%d:%d:%d:%d", b.Num, b.ID, b.Par, o, t)
 }
 
 type Ev struct {
@@ -79,6 +85,7 @@ type Ev struct {
 	H   uint64
 	B   *SBlock
 	Cor bool
+	Uns bool // served copy passes the sanity checks but Store must reject it (wrong OldRoot)
 	D   int
 	S   felt.Felt // nreorg start hash / store hash / nhead hash
 	E   felt.Felt
@@ -89,6 +96,7 @@ type Ev struct {
 type served struct {
 	b   *SBlock
 	cor bool
+	uns bool
 	ch  chan error
 	vis bool // already matched by a verify / verfail observation
 }
@@ -121,6 +129,7 @@ type Run struct {
 	local    *chain.Node
 	nhSub    sync.NewHeadSubscription
 	roSub    sync.ReorgSubscription
+	pcSub    sync.PreConfirmedDataSubscription
 	hist     map[string]int
 }
 
@@ -276,6 +285,7 @@ func (r *Run) yield() (ignoreCtx bool) {
 
 // ---------- serving ----------
 const nCorruptKinds = 5
+const kindUnstorable = 6 // not a corruption: sane block, state update does not apply (wrong OldRoot)
 
 // copyBuilt returns a fresh CommittedBlock; kind > 0 tampers one field so that SanityCheckNewHeight
 // must fail while Number / ParentHash stay intact.
@@ -303,6 +313,9 @@ func copyBuilt(b *chain.Built, kind int) sync.CommittedBlock {
 		sd[*chain.F(0x777)] = map[felt.Felt]*felt.Felt{*chain.F(1): chain.F(2)}
 		d.StorageDiffs = sd
 		su.StateDiff = &d
+	case kindUnstorable: // the block hash does not cover OldRoot: passes SanityCheckNewHeight, fails in Store
+		x := new(felt.Felt).Add(su.OldRoot, chain.F(0x5eed))
+		su.OldRoot = x
 	}
 	return sync.CommittedBlock{Block: blk, StateUpdate: &su, NewClasses: b.Classes, Persisted: make(chan error, 1)}
 }
@@ -373,6 +386,11 @@ func (d DS) BlockByNumber(ctx context.Context, n uint64) (sync.CommittedBlock, e
 	if f := r.take("err"); f != nil {
 		return fail(errInjected, false)
 	}
+	if kind == "revert" { // a failure aimed at revertTask's hash-comparison request: the walk back is interrupted
+		if f := r.take("reverr"); f != nil {
+			return fail(errInjected, false)
+		}
+	}
 	if n >= uint64(len(r.cur)) {
 		return fail(errNotFound, true)
 	}
@@ -385,10 +403,14 @@ func (d DS) BlockByNumber(ctx context.Context, n uint64) (sync.CommittedBlock, e
 	ck := 0
 	if f := r.take("corrupt"); f != nil {
 		ck = 1 + f.Arg%nCorruptKinds
+	} else if f := r.take("unstorable"); f != nil {
+		ck = kindUnstorable
 	}
 	cb := copyBuilt(sb.B, ck)
-	r.fserved = append(r.fserved, &served{b: sb, cor: ck != 0, ch: cb.Persisted})
-	if ck != 0 {
+	r.fserved = append(r.fserved, &served{b: sb, cor: ck != 0 && ck != kindUnstorable, uns: ck == kindUnstorable, ch: cb.Persisted})
+	if ck == kindUnstorable {
+		r.log = append(r.log, Ev{K: "funs", H: n, B: sb, Uns: true})
+	} else if ck != 0 {
 		r.log = append(r.log, Ev{K: "fcor", H: n, B: sb, Cor: true, D: ck})
 	} else {
 		r.log = append(r.log, Ev{K: "fok", H: n, B: sb})
@@ -479,7 +501,7 @@ func (r *Run) OnSyncStepDone(op string, n uint64, _ time.Duration) {
 		r.mu.Lock()
 		if s := r.lastServed(n); s != nil {
 			s.vis = true
-			r.log = append(r.log, Ev{K: "ver", H: n, B: s.b, Cor: s.cor})
+			r.log = append(r.log, Ev{K: "ver", H: n, B: s.b, Cor: s.cor, Uns: s.uns})
 		} else {
 			r.problem("verify hook for height %d without a served block", n)
 		}
@@ -488,7 +510,7 @@ func (r *Run) OnSyncStepDone(op string, n uint64, _ time.Duration) {
 		h, err := r.local.BC.HeadsHeader()
 		r.mu.Lock()
 		if err != nil || h.Number != n {
-			r.problem("store hook for %d but head unreadable / different (%v)", n, err)
+			r.log = append(r.log, Ev{K: "badstore", H: n}) // OpStore reported, block n is not the head
 		} else {
 			r.log = append(r.log, Ev{K: "store", H: n, S: *h.Hash})
 			r.obs = append(r.obs, *h.Hash)
@@ -534,6 +556,14 @@ func (r *Run) drainFeeds() {
 	select {
 	case ro := <-r.roSub.Recv():
 		r.log = append(r.log, Ev{K: "nreorg", S: *ro.StartBlockHash, SN: ro.StartBlockNum, E: *ro.EndBlockHash, EN: ro.EndBlockNum})
+	default:
+	}
+	select {
+	case pc := <-r.pcSub.Recv():
+		r.hist["pre-confirmed-notifications"]++
+		if pc != nil && pc.Block != nil && pc.Block.Number < uint64(len(r.obs)) {
+			r.problem("pre-confirmed notification for height %d at or below the head", pc.Block.Number)
+		}
 	default:
 	}
 	select {
@@ -589,7 +619,7 @@ func (l obsLogger) Warn(msg string, fields ...zap.Field) {
 		n, _ := num(fields, "number")
 		if s := r.lastServed(n); s != nil {
 			s.vis = true
-			r.log = append(r.log, Ev{K: "verfail", H: n, B: s.b, Cor: s.cor})
+			r.log = append(r.log, Ev{K: "verfail", H: n, B: s.b, Cor: s.cor, Uns: s.uns})
 		} else {
 			r.problem("sanity failure for height %d without a served block", n)
 		}
@@ -644,6 +674,7 @@ func runScript(sc *Script) *outcome {
 	}
 	r.nhSub = syn.SubscribeNewHeads()
 	r.roSub = syn.SubscribeReorg()
+	r.pcSub = syn.SubscribePreConfirmed()
 	ctx, cancel := context.WithCancel(context.Background())
 	done := make(chan struct{})
 	go func() { _ = syn.Run(ctx); close(done) }()
@@ -686,6 +717,7 @@ func runScript(sc *Script) *outcome {
 	r.mu.Unlock()
 	r.nhSub.Unsubscribe()
 	r.roSub.Unsubscribe()
+	r.pcSub.Unsubscribe()
 	if h, err := r.local.BC.Height(); err == nil {
 		for i := uint64(0); i <= h; i++ {
 			hd, err := r.local.BC.BlockHeaderByNumber(i)
@@ -738,7 +770,11 @@ func analyse(or *hx.Oracle, o *outcome) (fs []finding, stats map[string]int, mod
 	}
 	or.Ask("new", 1)
 	var msrc, mloc []*SBlock
-	lastVer := map[uint64]*SBlock{}
+	type verEnt struct {
+		b   *SBlock
+		uns bool
+	}
+	lastVer := map[uint64]*verEnt{}
 	var ilog, itr []string
 	var inferred []*SBlock
 	cause := ""
@@ -765,13 +801,13 @@ func analyse(or *hx.Oracle, o *outcome) (fs []finding, stats map[string]int, mod
 			rejected = true
 			return false
 		}
-		inferred = append(inferred, cand)
+		inferred = append(inferred, cand.b)
 		stats["store-parent-mismatch"]++
 		cause = "successor-on-source"
-		if int(cand.Num) >= len(msrc) || msrc[cand.Num] != cand {
+		if int(cand.b.Num) >= len(msrc) || msrc[cand.b.Num] != cand.b {
 			cause = "successor-replaced" // the verified successor is itself no longer on the source's chain
 		}
-		return send(i, "mism "+cand.model(true))
+		return send(i, "mism "+cand.b.model2(true, !cand.uns))
 	}
 	for i, e := range r.log {
 		if rejected {
@@ -801,15 +837,22 @@ func analyse(or *hx.Oracle, o *outcome) (fs []finding, stats map[string]int, mod
 		case "stale":
 			send(i, "stale "+e.B.model(true))
 		case "ver":
-			if send(i, "ver "+e.B.model(!e.Cor)) && !e.Cor {
-				lastVer[e.H] = e.B
+			if send(i, "ver "+e.B.model2(!e.Cor, !e.Uns)) && !e.Cor {
+				lastVer[e.H] = &verEnt{e.B, e.Uns}
 			}
 		case "verfail":
-			send(i, "verfail "+e.B.model(!e.Cor))
-		case "sfail":
-			if b := lastVer[e.H]; b != nil {
-				send(i, "sfail "+b.model(true))
+			send(i, "verfail "+e.B.model2(!e.Cor, !e.Uns))
+		case "funs":
+			send(i, fmt.Sprintf("funs %d", e.H))
+		case "sfail": // Store failed for a reason other than the parent hash: nothing may follow from it
+			if v := lastVer[e.H]; v != nil {
+				send(i, "sfail "+v.b.model2(true, !v.uns))
+				if v.uns {
+					stats["store-rejected-unstorable-copy"]++
+				}
 			}
+		case "badstore":
+			add("store-reported-for-block-not-in-database", fmt.Sprintf("log entry %d: OpStore reported for block %d but the database head is not that block", i, e.H), false)
 		case "store":
 			sb := r.byHash[e.S]
 			if sb == nil {
@@ -818,13 +861,17 @@ func analyse(or *hx.Oracle, o *outcome) (fs []finding, stats map[string]int, mod
 				break
 			}
 			// the property's own predicate, on the implementation's trace
-			if lastVer[e.H] != sb {
+			v := lastVer[e.H]
+			if v != nil && v.b == sb && v.uns {
+				add("stored-block-whose-state-update-does-not-apply", fmt.Sprintf("log entry %d: block %d stored from a copy with a wrong OldRoot", i, e.H), false)
+			}
+			if v == nil || v.b != sb {
 				add("stored-unverified-block", fmt.Sprintf("log entry %d: block %d stored without a preceding successful verification of that block", i, e.H), false)
 			}
 			if uint64(len(mloc)) != sb.Num || (len(mloc) > 0 && *sb.B.Block.ParentHash != mloc[len(mloc)-1].Hash) {
 				add("stored-not-extending-head", fmt.Sprintf("log entry %d: block %d stored on a head it does not extend", i, e.H), false)
 			}
-			send(i, "store "+sb.model(true))
+			send(i, "store "+sb.model2(true, v == nil || v.b != sb || !v.uns))
 			mloc = append(mloc, sb)
 			ilog = append(ilog, "a="+sb.model(true))
 			nStore++
@@ -872,6 +919,11 @@ func analyse(or *hx.Oracle, o *outcome) (fs []finding, stats map[string]int, mod
 				add("newhead-notification-unknown-block", fmt.Sprintf("log entry %d", i), false)
 				rejected = true
 				break
+			}
+			// every new-head notification is for a block that is in the local chain at its height when
+			// the notification is sent (it can only disappear later through a reverted range)
+			if int(sb.Num) >= len(mloc) || mloc[sb.Num] != sb {
+				add("newhead-for-block-not-in-local-chain", fmt.Sprintf("log entry %d: new-head notification for block %d which is not in the node's chain (height %d)", i, sb.Num, len(mloc)), false)
 			}
 			send(i, "nhead")
 			itr = append(itr, "h="+sb.model(true))
@@ -968,7 +1020,7 @@ func genScript(rng *hx.RNG, idx int) *Script {
 		}
 		sc.Actions = append(sc.Actions, Action{At: at, Kind: "reorg", D: d, K: 1 + rng.Intn(min(d, 6)+2)})
 	}
-	kinds := []string{"err", "err", "err", "delay", "delay", "corrupt", "corrupt", "stale", "stale", "laterr"}
+	kinds := []string{"err", "err", "err", "delay", "delay", "corrupt", "corrupt", "stale", "stale", "laterr", "unstorable", "unstorable", "unstorable", "reverr", "reverr"}
 	nf := rng.Intn(10)
 	ats := make([]int, nf)
 	for i := range ats {
@@ -994,6 +1046,22 @@ func scenarios() []*Script {
 		{Name: "tip-following", Init: 3, NewState: false, Seed: 3, PollMs: 1,
 			Actions: []Action{{At: 30, Kind: "ext", K: 1}, {At: 45, Kind: "ext", K: 1}, {At: 60, Kind: "ext", K: 1},
 				{At: 75, Kind: "ext", K: 1}, {At: 90, Kind: "reorg", D: 1, K: 1}, {At: 105, Kind: "ext", K: 1}}},
+		// a copy with a wrong OldRoot passes the sanity checks and is rejected by Store: while following
+		// the tip, right after a reorg (currReorg pending) and in catch-up mode
+		{Name: "store-rejects-state-update", Init: 4, NewState: false, Seed: 13,
+			Actions: []Action{{At: 30, Kind: "ext", K: 1}, {At: 50, Kind: "reorg", D: 2, K: 3}, {At: 80, Kind: "ext", K: 2}},
+			Faults: []Fault{{At: 2, Kind: "unstorable"}, {At: 30, Kind: "unstorable"}, {At: 50, Kind: "unstorable"},
+				{At: 52, Kind: "unstorable"}, {At: 80, Kind: "unstorable"}}},
+		{Name: "store-rejects-state-update-catch-up", Init: 30, NewState: true, Seed: 17,
+			Faults: []Fault{{At: 5, Kind: "unstorable"}, {At: 12, Kind: "unstorable"}, {At: 25, Kind: "unstorable"}}},
+		// the walk back of a depth-3 reorg is interrupted (comparison request fails once) and resumed by a
+		// second revertTask: one reorg notification must still cover the whole reverted range
+		{Name: "interrupted-revert-walk", Init: 6, NewState: true, Seed: 19,
+			Actions: []Action{{At: 40, Kind: "reorg", D: 3, K: 4}},
+			Faults:  []Fault{{At: 40, Kind: "reverr"}}},
+		{Name: "interrupted-revert-walk-twice", Init: 9, NewState: false, Seed: 23,
+			Actions: []Action{{At: 50, Kind: "reorg", D: 5, K: 6}},
+			Faults:  []Fault{{At: 50, Kind: "reverr"}, {At: 51, Kind: "reverr"}}},
 		{Name: "catch-up", Init: 48, NewState: true, Seed: 5,
 			Faults: []Fault{{At: 20, Kind: "delay", Arg: 900}, {At: 40, Kind: "delay", Arg: 1400}}},
 		{Name: "reorg-between-out-of-order-responses", Init: 12, NewState: true, Seed: 11, HoldAt: 6, Procs: 4},
@@ -1054,7 +1122,7 @@ func evaluate(c *hx.Ctx, or *hx.Oracle, sc *Script) []finding {
 		c.Hist[k] += v
 	}
 	for k, v := range stats {
-		if strings.HasPrefix(k, "ev:") || k == "store-parent-mismatch" || k == "out-of-order-fetch-completion" {
+		if strings.HasPrefix(k, "ev:") || k == "store-parent-mismatch" || k == "out-of-order-fetch-completion" || k == "store-rejected-unstorable-copy" {
 			c.Hist[k] += v
 		}
 	}
@@ -1089,6 +1157,28 @@ func selfTestCorruption() {
 		if *t.Block.ParentHash != *b1.Block.ParentHash || t.Block.Number != 1 {
 			hx.Fatalf("corruption kind %d alters linkage fields", k)
 		}
+	}
+	for _, newState := range []bool{false, true} { // the unstorable copy: sane, rejected by Store, database untouched
+		sq := chain.NewNode(nil, newState)
+		c0, err := sq.Finalise(spec(0, 1))
+		hx.Must(err)
+		c1, err := sq.Finalise(spec(1, 1))
+		hx.Must(err)
+		w := chain.NewNode(nil, newState)
+		hx.Must(w.Store(c0))
+		u := copyBuilt(c1, kindUnstorable)
+		cm, err := w.BC.SanityCheckNewHeight(u.Block, u.StateUpdate, u.NewClasses)
+		if err != nil {
+			hx.Fatalf("the wrong-OldRoot copy fails the sanity check (new_state=%v): %v", newState, err)
+		}
+		err = w.BC.Store(u.Block, cm, u.StateUpdate, u.NewClasses)
+		if err == nil || strings.Contains(err.Error(), "parent hash does not match") {
+			hx.Fatalf("the wrong-OldRoot copy is not rejected by Store as expected (new_state=%v): %v", newState, err)
+		}
+		if h, err := w.BC.Height(); err != nil || h != 0 {
+			hx.Fatalf("a rejected Store moved the head (new_state=%v)", newState)
+		}
+		hx.Must(w.Store(c1)) // and the genuine copy is still storable afterwards
 	}
 }
 
